@@ -667,18 +667,8 @@ class NetworkXPropertyGraph(ABCPropertyGraph, NetworkXMixin):
         # remember that graphid is ignored in get_graph in this implementation, but respected
         # in the disjoint implementation
 
-        # merge the nodes in situ
-        nx.contracted_nodes(self.storage.get_graph(self.graph_id), real_node, real_other_node, copy=False)
-        # contracted_nodes also leaves its own 'contraction' bookkeeping on every link the two nodes had in
-        # common; it is not a link property (and holds internal node ids)
-        for nbr in self.storage.get_graph(self.graph_id).adj[real_node]:
-            self.storage.get_graph(self.graph_id).edges[real_node, nbr].pop('contraction', None)
-
-        # deal with properties
-        # remove all properties, including 'contracted' new property
-        self.storage.get_graph(self.graph_id).nodes[real_node].clear()
-
-        # construct a new set of properties
+        # construct the new set of properties first: a policy that names a property the other
+        # node lacks raises KeyError here, before either graph has been modified
         new_props = dict()
         if merge_properties is None:
             new_props = node_props
@@ -690,6 +680,18 @@ class NetworkXPropertyGraph(ABCPropertyGraph, NetworkXMixin):
                             [node_props[k], other_props[k]] if merge_properties[k] == 'combine' else None
                 else:
                     new_props[k] = node_props[k]
+
+        # merge the nodes in situ
+        nx.contracted_nodes(self.storage.get_graph(self.graph_id), real_node, real_other_node, copy=False)
+        # contracted_nodes also leaves its own 'contraction' bookkeeping on every link the two nodes had in
+        # common; it is not a link property (and holds internal node ids)
+        for nbr in self.storage.get_graph(self.graph_id).adj[real_node]:
+            self.storage.get_graph(self.graph_id).edges[real_node, nbr].pop('contraction', None)
+
+        # deal with properties
+        # remove all properties, including 'contracted' new property
+        self.storage.get_graph(self.graph_id).nodes[real_node].clear()
+
         self.storage.get_graph(self.graph_id).nodes[real_node].update(new_props)
 
     def get_stitch_nodes(self) -> List[str]:
